@@ -14,30 +14,30 @@ use std::fmt::Debug;
 
 /// suites reachable from the fuzz target: (key, tape length in u32 words offered to libFuzzer, executions per worker)
 pub const SUITES: &[(&str, usize, u64)] = &[
-    ("C01/solved", 1500, 40000),
-    ("C02/infeasible", 1500, 40000),
-    ("C03/report", 1500, 40000),
+    ("C01/solved", 1500, 20000),
+    ("C02/infeasible", 1500, 20000),
+    ("C03/report", 1500, 20000),
     ("C04/robust", 600, 150000),
-    ("C05/equivalent", 2500, 6000),
-    ("C07/trajectory", 1500, 15000),
-    ("C08/updates", 3000, 15000),
-    ("C08/refused", 800, 100000),
+    ("C05/equivalent", 2500, 3000),
+    ("C07/trajectory", 1500, 8000),
+    ("C08/updates", 3000, 8000),
+    ("C08/refused", 800, 60000),
     ("C10/equil", 900, 150000),
-    ("C11/kkt", 700, 60000),
+    ("C11/kkt", 700, 8000),
     ("C12/ldl", 600, 200000),
     ("C12/ldl-rejects", 600, 200000),
-    ("C13/nt", 300, 150000),
+    ("C13/nt", 300, 40000),
     ("C14/nonsym", 200, 100000),
-    ("C15/step-single", 300, 200000),
-    ("C15/step-composite", 900, 80000),
-    ("C15/init", 300, 150000),
+    ("C15/step-single", 300, 80000),
+    ("C15/step-composite", 900, 40000),
+    ("C15/init", 300, 80000),
     ("C16/ops", 400, 150000),
     ("C16/raw", 200, 400000),
     ("C16/vecmath", 120, 400000),
-    ("C17/graphs", 1500, 200000),
-    ("C18/chordal", 4000, 6000),
-    ("C19/roundtrip", 1500, 15000),
-    ("C19/faults", 800, 60000),
+    ("C17/graphs", 1500, 60000),
+    ("C18/chordal", 4000, 3000),
+    ("C19/roundtrip", 1500, 10000),
+    ("C19/faults", 800, 40000),
 ];
 
 pub fn tape_len(key: &str) -> Option<usize> {
